@@ -306,6 +306,7 @@ DEFAULTS = dict(
     inplay_bet_delay=(1, 5, 12),
     pre_bet_delay=(0,),
     repeat_unchanged=0.1,
+    trade_levels=(1, 1, 2, 3),
 )
 
 
@@ -381,7 +382,7 @@ class Director:
         rng = self.rng
         mid = self.mid[key]
         trd = {}
-        for _ in range(n_levels or rng.choice((1, 1, 2, 3))):
+        for _ in range(n_levels or rng.choice(self.p["trade_levels"])):
             i = max(0, min(len(L.CLASSIC) - 1, mid + rng.randint(-3, 3)))
             p = L.CLASSIC[i]
             delta = rng.choice((0.02, 0.5, 2, 4.44, 10, 36, 200))
